@@ -44,6 +44,7 @@ func TestEnum(t *testing.T) {
 					if ln == 0 {
 						c.Plain = Plain{Bytes: []byte{}}
 					}
+					c.Streams = enumStreams(ln, tamper)
 					if !hx.One(t, "crypt", c, Exec) {
 						return
 					}
@@ -78,4 +79,23 @@ func FuzzBytes(f *testing.F) {
 			Key: Key{Secret: []byte("fuzz"), Salt: []byte{sel}}, Raw: raw, Bufs: []int{1 + int(sel>>5), 64}}
 		hx.One(t, "bytes", c, ExecBytes)
 	})
+}
+
+// enumStreams: seven readers, one per consumption style, on seven different files, all
+// opened before the first byte is read, then consumed round-robin.
+func enumStreams(ln, tamper int) *StreamPlan {
+	p := &StreamPlan{CloseLate: (ln+tamper)%2 == 0}
+	for i, n := range []int{20 + ln, 33, 7, 64, 300} {
+		p.Files = append(p.Files, StreamFile{Plain: Plain{N: n, Fill: "prng", Seed: uint64(8*ln + i)}, Stream: i%2 == 1})
+	}
+	for i, st := range streamStyles {
+		p.Readers = append(p.Readers, StreamReader{Target: (i + tamper) % 7, Style: st, K: 3 + i, Bufs: []int{1 + i%3, 16}, Child: i%2 == 0})
+		p.Sched = append(p.Sched, i)
+	}
+	for round := 0; round < 3; round++ {
+		for i := range streamStyles {
+			p.Sched = append(p.Sched, (i+round)%7)
+		}
+	}
+	return p
 }
